@@ -8,6 +8,7 @@ use std::sync::Arc;
 
 use parking_lot::RwLock;
 
+use crate::desc::{is_valid_label_name, is_valid_metric_name};
 use crate::errors::{Error, Result};
 use crate::metrics::Collector;
 use crate::proto;
@@ -47,6 +48,22 @@ impl RegistryCore {
             // (In other words: Is the fqName + constLabel combination unique?)
             if self.desc_ids.contains(&desc.id) {
                 return Err(Error::AlreadyReg);
+            }
+
+            // A label of the collector must not clash with a registry-wide label.
+            if let Some(ref hmap) = self.labels {
+                let clash = desc
+                    .const_label_pairs
+                    .iter()
+                    .map(|lp| lp.name())
+                    .chain(desc.variable_labels.iter().map(|s| s.as_str()))
+                    .find(|name| hmap.contains_key(*name));
+                if let Some(name) = clash {
+                    return Err(Error::Msg(format!(
+                        "label name {} of {:?} is also a registry-wide label",
+                        name, desc.fq_name
+                    )));
+                }
             }
 
             if let Some(hash) = self
@@ -243,6 +260,23 @@ impl Registry {
         if let Some(ref namespace) = prefix {
             if namespace.is_empty() {
                 return Err(Error::Msg("empty prefix namespace".to_string()));
+            }
+            if !is_valid_metric_name(namespace) {
+                return Err(Error::Msg(format!(
+                    "'{}' is not a valid prefix namespace",
+                    namespace
+                )));
+            }
+        }
+
+        if let Some(ref hmap) = labels {
+            for name in hmap.keys() {
+                if !is_valid_label_name(name) {
+                    return Err(Error::Msg(format!(
+                        "'{}' is not a valid label name",
+                        name
+                    )));
+                }
             }
         }
 
